@@ -6,9 +6,9 @@ cd $WT || exit 9
 git diff -- src > /tmp/confirm_$ID.diff
 [ -s /tmp/confirm_$ID.diff ] || { echo "no change applied in $WT"; exit 9; }
 PYTHONPATH=$WT/src timeout 1800 /venv/bin/python _seed/demo.py > /tmp/confirm_${ID}_with.log 2>&1; WITH=$?
-git stash -q -- src
+git apply -R /tmp/confirm_$ID.diff || { echo 'cannot reverse'; exit 9; }
 PYTHONPATH=$WT/src timeout 1800 /venv/bin/python _seed/demo.py > /tmp/confirm_${ID}_without.log 2>&1; WITHOUT=$?
-git stash pop -q
+git apply /tmp/confirm_$ID.diff || { echo 'cannot re-apply'; exit 9; }
 PYTHONPATH=$WT/src timeout 3000 /venv/bin/python -m pytest -q -p no:cacheprovider --timeout=900 --continue-on-collection-errors > /tmp/confirm_${ID}_tests.log 2>&1; TESTS=$?
 SUMMARY=$(tail -1 /tmp/confirm_${ID}_tests.log)
 echo "$ID demo_with=$WITH demo_without=$WITHOUT tests_exit=$TESTS :: $SUMMARY"
